@@ -21,6 +21,7 @@ if ROOT not in sys.path:
 SPEC_MODULES = {
     "C09": ["specs.c09_lock"],
     "C10": ["specs.c10_semaphore", "specs.c10_limiter"],
+    "C11": ["specs.c11_condition"],
 }
 
 
@@ -86,6 +87,10 @@ def main(argv=None):
             results = pool.map(_run_unit, jobs, chunksize=1)
     else:
         results = [_run_unit(j) for j in jobs]
+    if args.v:
+        for r in sorted(results, key=lambda r: -r["seconds"]):
+            slow = sorted(r["obligations"], key=lambda o: -o["seconds"])[:3]
+            print(f"  unit {r['unit']}: {r['seconds']:.1f}s, {r['paths']} paths, {len(r['obligations'])} obligation instances; slowest: " + ", ".join(f"{o['name'].split('/', 1)[-1]}={o['seconds']:.1f}s" for o in slow))
     rc = report.finish(args.prop, args.tier, results, time.time() - t0, verbose=args.v, partial=bool(args.unit))
     if args.tier == "thorough" and not args.unit and "SEGVC_OUT" not in os.environ:
         selftest(args.prop, t0)
